@@ -28,6 +28,18 @@ type ginfo struct {
 	locks  int
 	spawns map[string]int
 	dead   bool
+	id     int      // dense index, in order of first appearance (deterministic: execution is serialised)
+	vc     []uint64 // vector clock, see hbSync
+}
+
+var nextGid int
+
+func newG(name string) *ginfo {
+	g := &ginfo{name: name, spawns: map[string]int{}, id: nextGid}
+	nextGid++
+	g.vc = make([]uint64, g.id+1)
+	g.vc[g.id] = 1
+	return g
 }
 
 type parked struct {
@@ -67,7 +79,7 @@ func cur() *ginfo {
 	g := gs[id]
 	if g == nil {
 		anon++
-		g = &ginfo{name: fmt.Sprintf("anon%d", anon), spawns: map[string]int{}}
+		g = newG(fmt.Sprintf("anon%d", anon))
 		gs[id] = g
 	}
 	mu.Unlock()
@@ -85,7 +97,7 @@ func CurName() string {
 func register(name string) {
 	id := verifGoid()
 	mu.Lock()
-	gs[id] = &ginfo{name: name, spawns: map[string]int{}}
+	gs[id] = newG(name)
 	mu.Unlock()
 }
 
@@ -124,14 +136,51 @@ var (
 
 func Locked() {
 	if active.Load() {
-		cur().locks++
+		g := cur()
+		g.locks++
+		hbSync(g)
 	}
 }
 
 func Unlocking() {
 	if active.Load() {
-		cur().locks--
+		g := cur()
+		hbSync(g)
+		g.locks--
 	}
+}
+
+// Happens-before, over-approximated. Every synchronisation operation the instrumenter marks (channel send, receive,
+// select, close, range over a channel, mutex lock/unlock, go statement, goroutine start and end) is treated as a
+// synchronisation with *every* other goroutine's earlier synchronisation operations: the caller publishes its vector
+// clock to one shared clock, takes the join, and starts a new epoch. Real happens-before is a subset of this order (a
+// receive is ordered after the matching send only, not after all earlier channel operations of all goroutines), so
+// two accesses this order leaves unordered are unordered in the Go memory model too - as far as the marked
+// operations go (sync.WaitGroup, sync.Cond, sync.Once and atomics are not marked; goroutines that have ended are
+// ignored instead). Preemption points are not synchronisation and do not count.
+var worldVC []uint64
+
+func hbSync(g *ginfo) {
+	mu.Lock()
+	n := len(worldVC)
+	if len(g.vc) > n {
+		n = len(g.vc)
+	}
+	for len(worldVC) < n {
+		worldVC = append(worldVC, 0)
+	}
+	for len(g.vc) < n {
+		g.vc = append(g.vc, 0)
+	}
+	for i := 0; i < n; i++ {
+		if g.vc[i] > worldVC[i] {
+			worldVC[i] = g.vc[i]
+		} else {
+			g.vc[i] = worldVC[i]
+		}
+	}
+	g.vc[g.id]++
+	mu.Unlock()
 }
 
 // Yield parks the caller until the scheduler releases it.
@@ -140,6 +189,9 @@ func Yield(site string) {
 		return
 	}
 	g := cur()
+	if site != "preempt" {
+		hbSync(g)
+	}
 	if g.locks > 0 {
 		return
 	}
@@ -177,6 +229,7 @@ func GoEnd() {
 		return
 	}
 	g := cur()
+	hbSync(g)
 	mu.Lock()
 	g.dead = true
 	mu.Unlock()
@@ -188,15 +241,17 @@ func GoEnd() {
 // two goroutines are inside the map implementation at once. With execution serialised that can never happen in a
 // simulated run, so the condition that makes it possible is checked instead, on every access the instrumenter sees to
 // a package-level map: two goroutines which are alive at the same time access the same map object, at least one of
-// them writes, and at least one of the two accesses is made without any mutex held. (Accesses made before the first
-// goroutine is spawned - initialisation - are ignored; a goroutine that has ended hands its maps over.)
+// them writes, at least one of the two accesses is made without any mutex held, and the earlier access does not
+// happen-before the later one (hbSync above). (Accesses made before the first goroutine is spawned - initialisation -
+// are ignored; a goroutine that has ended hands its maps over.)
 
 // mapRec: what one goroutine has done to one map so far, by kind of access
 // (index: 0 read under a mutex, 1 read without, 2 write under a mutex, 3 write without).
 type mapRec struct {
-	g    *ginfo
-	seen [4]bool
-	site [4]string
+	g     *ginfo
+	seen  [4]bool
+	epoch [4]uint64 // the goroutine's own clock component at its latest access of this kind
+	site  [4]string
 }
 
 var (
@@ -242,7 +297,8 @@ func MapAccess(m interface{}, name string, write bool, site string) {
 				continue
 			}
 			otherWrite, otherLocked := k&2 != 0, k&1 == 0
-			if (write || otherWrite) && !(locked && otherLocked) {
+			ordered := r.g.id < len(g.vc) && r.epoch[k] <= g.vc[r.g.id] // the other access happens-before this one
+			if (write || otherWrite) && !(locked && otherLocked) && !ordered {
 				mapRaceOf[name] = true
 				mapRaces = append(mapRaces, fmt.Sprintf("%s: %s %s at %s while %s, still running, %s at %s",
 					name, g.name, how[kind], site, r.g.name, how[k], r.site[k]))
@@ -255,6 +311,7 @@ func MapAccess(m interface{}, name string, write bool, site string) {
 		mapAccs[p] = append(mapAccs[p], mine)
 	}
 	mine.seen[kind] = true
+	mine.epoch[kind] = g.vc[g.id]
 	mine.site[kind] = site
 }
 
